@@ -350,6 +350,14 @@ def apply_op(pool, op, ctx, prefix="c09"):
         o = op["obj"] % len(R)
         j = op["other"] % len(R)
         mode = op.get("mode", "default")
+        # growth bound: repeated extension of an object by itself doubles it every time; beyond a few thousand atoms/terms a single
+        # extension takes minutes (long chains built on purpose - the 1100-2600 atom hosts of C10/C11 - are extended by small fragments only)
+        reps_ = op.get("repeat", 2) if mode == "repeat" else 1
+        nterms_o = sum(len(M[o].terms[kk]) for kk in KINDS)
+        nterms_j = sum(len(M[j].terms[kk]) for kk in KINDS)
+        if (len(M[o].atoms) + reps_ * len(M[j].atoms) > 3000 and len(M[j].atoms) > 50) or nterms_o * max(1, nterms_j) * reps_ > 4_000_000:
+            ctx.count("extend_skipped_growth_bound")
+            return set()
         ns, no = len(M[o].atoms), len(M[j].atoms)
         other_r, other_m = R[j], M[j]
         if j == o:
